@@ -30,6 +30,7 @@ pub struct World {
     pub min_expiry: int,                // min absolute expiry of held HTLCs (u32::MAX if none)
     pub received_read: int,             // `received` as of our last lock() of the table
     pub min_expiry_read: int,           // `min_expiry` as of our last lock() of the table
+    pub height_at_init: int,            // best height known when we last locked the table (payment initiation)
     pub height: int,                    // best height known to the block watcher
     pub height_read: int,               // last value returned to us by current_height()
     pub now_ns: nat,                    // monotone clock
@@ -114,7 +115,7 @@ pub open spec fn rely_env(a: World, b: World) -> bool {
     &&& same_consts(a, b)
     // ours alone
     &&& b.released == a.released && b.resolved == a.resolved && b.lock_held == a.lock_held
-    &&& b.received_read == a.received_read && b.min_expiry_read == a.min_expiry_read
+    &&& b.received_read == a.received_read && b.min_expiry_read == a.min_expiry_read && b.height_at_init == a.height_at_init
     &&& b.height_read == a.height_read && b.wait_started_ns == a.wait_started_ns
     &&& b.slept_ns == a.slept_ns && b.rpc_under_lock == a.rpc_under_lock
     &&& b.pay_running == a.pay_running && b.attempted == a.attempted
